@@ -29,7 +29,7 @@ ASSUMPTIONS = ['programs are generated so that every scope starts on its own lin
 BOUNDS = {'quick': 'all shapes of depth <= 3 over 6 scope kinds (258 programs), again with the nested expression scope placed directly as first / second iterable of its comprehension, + 14 hand-written construct programs; every scope',
           'thorough': '8 scope kinds, depth <= 3 (584 programs) with two soup variants'}
 
-EXPR_KINDS = ('lambda', 'listcomp', 'genexp', 'setcomp', 'dictcomp')
+EXPR_KINDS = ('lambda', 'lambda0', 'listcomp', 'genexp', 'setcomp', 'dictcomp')
 STMT_KINDS = ('def', 'class', 'asyncdef')
 
 
@@ -98,6 +98,10 @@ def render(kinds, d=0, ctx=None):
         inner = {'fn': ctx['fn'], 'cls_nearest': False, 'lam': True}
         ch = child(inner, False)
         return 'expr', [f'lambda lp{s}, lq{s}=ldq{s}, *la{s}, lk{s}=ldk{s}, **lkw{s}: (lp{s}, lfr{s}, {up},'] + indent(ch) + [')']
+    if k == 'lambda0':  # a lambda without any default: nothing of it belongs to the enclosing scope
+        inner = {'fn': ctx['fn'], 'cls_nearest': False, 'lam': True}
+        ch = child(inner, False)
+        return 'expr', [f'lambda lp{s}, *la{s}, **lkw{s}: (lp{s}, lfr{s}, {up},'] + indent(ch) + [')']
     # comprehensions; ctx['pos'] says where a nested expression scope sits: in the element (default), directly as the first
     # iterable (evaluated in the *enclosing* scope) or directly as the second iterable (inside the comprehension scope)
     inner = dict(ctx)
@@ -374,8 +378,8 @@ def _kind_of(name):
 
 
 def shards(tier):
-    kinds = ('def', 'class', 'lambda', 'listcomp', 'genexp', 'dictcomp') if tier == 'quick' else \
-        ('def', 'asyncdef', 'class', 'lambda', 'listcomp', 'setcomp', 'genexp', 'dictcomp')
+    kinds = ('def', 'class', 'lambda', 'lambda0', 'listcomp', 'genexp', 'dictcomp') if tier == 'quick' else \
+        ('def', 'asyncdef', 'class', 'lambda', 'lambda0', 'listcomp', 'setcomp', 'genexp', 'dictcomp')
     sh = list(shapes(kinds, 3))
     out = [{'shapes': [list(s) for s in sh[i:i + 8]]} for i in range(0, len(sh), 8)]
     comps = ('listcomp', 'genexp', 'setcomp', 'dictcomp')
